@@ -67,6 +67,13 @@ def _reload_worker(src):
         flat_err = str(e)
     text = pyqasm.dumps(m)
     try:
+        # a validation of the already unrolled module leaves its unrolled program as it is
+        m.validate()
+        if pyqasm.dumps(m) != text:
+            return ("validate-changes-unrolled", "validate() after unroll() changed what the module prints", None, text)
+    except Exception as e:
+        return ("validate-after-unroll-fails", "%s: %s" % (type(e).__name__, str(e)[:150]), None, text)
+    try:
         a = ir.clist([ir.stmt(s) for s in stmts])
     except ir.Unconvertible as e:
         return ("unconvertible", str(e))
